@@ -346,8 +346,10 @@ theorem ValOkF_resolveObj {P : String → Prop} {c : String} (hc : P c) (env : E
     simp only [resolveObj]
     split
     · split
-      · exact ObjOkF_insert_carrier h hc _
       · exact ObjOkF_of_AllStrKV h
+      · split
+        · exact ObjOkF_insert_carrier h hc _
+        · exact ObjOkF_of_AllStrKV h
     · exact ObjOkF_of_AllStrKV h
   | _ => simpa [resolveObj, ValOkF] using h
 
